@@ -254,7 +254,7 @@ def execute(spec, w, ctx):
             continue
         if kind == "gen_pair":
             out_a, res_b, before_p, after_p = genops.run_gen_pair(w, op)
-            events.append([i_op, "gen_pair", out_a["status"], res_b["status"]])
+            events.append([i_op, "gen_pair", out_a["status"], res_b["status"], res_b.get("trace")])
             shapes.append("P")
             pb_ = genops.pair_problem(ctx, op, out_a, res_b, before_p, after_p)
             if pb_ is not None:
